@@ -213,7 +213,7 @@ Lemma survive order s o c img :
   In (c, img) (crash_points order s o) ->
   forall n i, lookup (meta s) n = Some i -> ~ touches o n -> lookup (meta img) n = Some i.
 Proof.
-  intros H n i L NT. destruct o; simpl in H, NT; try (simpl in H; contradiction).
+  intros H n i L NT. destruct o; simpl in H, NT; try (simpl in H; contradiction); nrm.
   - (* Prepare *)
     apply in_app_or in H. destruct H as [H|H].
     + apply create_points_meta in H. destruct H as [H|H]; rewrite H; [exact L|].
@@ -222,10 +222,10 @@ Proof.
       pose proof (create_ok _ _ _ _ _ _ _ CS) as OK. destruct OK as [_ [_ [_ [_ [E1 _]]]]].
       assert (L1 : lookup (meta s1) n = Some i).
       { subst s1. simpl. destruct (Nat.eqb_spec key n); [subst; tauto|exact L]. }
-      destruct (l_target l) as [t|] eqn:LT; [|simpl in H; contradiction].
+      destruct (l_target lm) as [t|] eqn:LT; [|simpl in H; contradiction].
       destruct mok; [|simpl in H; contradiction].
       destruct H as [H|H]; [inversion H; subst img; exact L1|].
-      destruct (commit_active (fs_mount s1 (sn_id sn) l true) t key (set_remote l) true) as [s3 x] eqn:CA.
+      destruct (commit_active (fs_mount s1 (sn_id sn) lm true) t key (set_remote l) true) as [s3 x] eqn:CA.
       destruct x as [e|].
       * destruct e; try (simpl in H; contradiction). destruct H as [H|[]]. inversion H; subst img. exact L1.
       * apply commit_ok in CA. destruct CA as [_ [j [_ [_ [_ E3]]]]].
@@ -335,18 +335,18 @@ Lemma live_dirs_survive order s o c img :
   forall n i, lookup (meta img) n = Some i -> (is_close o = true -> l_remote (i_labels i) = false) ->
   In (DId (i_id i)) (dirs img).
 Proof.
-  intros I C H n i L NR. destruct o; simpl in H; try contradiction.
+  intros I C H n i L NR. destruct o; simpl in H; try contradiction; nrm.
   - (* Prepare *)
     apply in_app_or in H. destruct H as [H|H]; [eapply create_points_dirs; eauto|].
     destruct (create_snapshot s KActive key parent l) as [s1 [e|sn]] eqn:CS; [simpl in H; contradiction|].
     pose proof (create_inv _ _ _ _ _ _ _ I CS) as I1.
     pose proof (create_ok _ _ _ _ _ _ _ CS) as OK. destruct OK as [_ [_ [ID [_ [E1 _]]]]].
     assert (C1 : closed s1 = false) by (subst s1; reflexivity).
-    destruct (l_target l) as [t|]; [|simpl in H; contradiction].
+    destruct (l_target lm) as [t|]; [|simpl in H; contradiction].
     destruct mok; [|simpl in H; contradiction].
     destruct H as [H|H]; [inversion H; subst img; eapply durable_dirs; eauto|].
-    destruct (commit_active (fs_mount s1 (sn_id sn) l true) t key (set_remote l) true) as [s3 x] eqn:CA.
-    assert (I2 : Inv (fs_mount s1 (sn_id sn) l true)).
+    destruct (commit_active (fs_mount s1 (sn_id sn) lm true) t key (set_remote l) true) as [s3 x] eqn:CA.
+    assert (I2 : Inv (fs_mount s1 (sn_id sn) lm true)).
     { apply mount_inv; auto.
       - rewrite ID. subst s1. simpl. lia.
       - destruct (mounted s1 (sn_id sn)) eqn:M; auto. apply mounted_in in M. destruct M as [lb M].
